@@ -206,14 +206,27 @@ impl Scenario for C19 {
         let alpha = *rng.pick(ALPHABETS);
         let pool: Vec<String> = (0..rng.usize(1, 6)).map(|_| gen_word(&mut rng, alpha)).collect();
         let nfiles = rng.usize(1, 3);
-        let files = (0..nfiles).map(|_| gen_file(&mut rng, alpha, &pool)).collect();
+        let mut files: Vec<String> = (0..nfiles).map(|_| gen_file(&mut rng, alpha, &pool)).collect();
+        if rng.chance(0.1) {
+            // the same content listed twice
+            let dup = files[0].clone();
+            files.push(dup);
+        }
+        if rng.chance(0.2) {
+            // no newline at the end of the last file
+            if let Some(last) = files.last_mut() {
+                while last.ends_with('\n') || last.ends_with('\r') {
+                    last.pop();
+                }
+            }
+        }
         let (vocab_size, num_special) = match rng.below(10) {
             0 => (256, 0),
             1 => (320, 0),
             2 => (384, rng.usize(0, 20)),
             _ => (320, rng.usize(64 - 24, 63)), // 1..24 merges: both exhausted and non-exhausted corpora
         };
-        let mut ts: Vec<u8> = vec![0, 1, 2, 3, 4];
+        let mut ts: Vec<u8> = vec![0, 1, 2, 3, 4, if rng.chance(0.5) { 8 } else { 16 }];
         rng.shuffle(&mut ts);
         ts.truncate(rng.usize(1, 2));
         C19 {
